@@ -612,6 +612,14 @@ class Backend(ABC):
                 )
             case SigmaQueryExpression():
                 return self.convert_condition_query_expr(cond, state)
+            case SigmaExpansion():  # OR-link all values of the expansion
+                return self.convert_condition_or(
+                    ConditionOR(
+                        [ConditionValueExpression(value) for value in cond.value.values],
+                        cond.source,
+                    ),
+                    state,
+                )
             case _:  # pragma: no cover
                 raise TypeError(
                     "Unexpected value type class in condition parse tree: "
